@@ -163,6 +163,9 @@ impl Db {
             index
         };
 
+        #[cfg(anything_verif)]
+        crate::verif::crashpoint("index_ready");
+
         let tokenizer = TextAnalyzer::from(NgramTokenizer::new(1, 7, true)).filter(LowerCaser);
         index.tokenizers().register("ngram", tokenizer);
 
@@ -198,7 +201,11 @@ impl Db {
             log::info!("rebuilding search index at {}", config.index_path.display());
 
             let mut writer = db.index.writer(50_000_000)?;
+            #[cfg(anything_verif)]
+            crate::verif::crashpoint("writer_created");
             writer.delete_all_documents()?;
+            #[cfg(anything_verif)]
+            crate::verif::crashpoint("deleted_all");
 
             for name in config.assets() {
                 if name == SOURCES_BIN_GZ {
@@ -208,11 +215,19 @@ impl Db {
                 if let Some(content) = config.get_asset(name.as_ref()) {
                     db.load_bytes(&mut writer, content.data.as_ref())
                         .with_context(|| anyhow!("loading: {}", name))?;
+                    #[cfg(anything_verif)]
+                    crate::verif::crashpoint("asset_loaded");
                 }
             }
 
+            #[cfg(anything_verif)]
+            crate::verif::crashpoint("before_commit");
             writer.commit()?;
+            #[cfg(anything_verif)]
+            crate::verif::crashpoint("after_commit");
             db.reader.reload()?;
+            #[cfg(anything_verif)]
+            crate::verif::crashpoint("after_reload");
 
             config.meta.version = Some(config.this_version.to_owned());
             config.meta.database_hash = Some(hash);
@@ -227,6 +242,8 @@ impl Db {
 
     /// Perform a lookup over the given string.
     pub(crate) fn lookup(&self, query: &str) -> Result<Option<Match>, LookupError> {
+        #[cfg(anything_verif)]
+        let query_text = query;
         let searcher = self.reader.searcher();
 
         let query_parser = QueryParser::for_index(&self.index, vec![self.field_name]);
@@ -242,11 +259,73 @@ impl Db {
                     Err(..) => continue,
                 };
 
+                #[cfg(anything_verif)]
+                crate::verif::record(crate::verif::Event::Lookup {
+                    phrase: query_text.to_owned(),
+                    hit: Some(c.description.to_string()),
+                });
+
                 return Ok(Some(Match::Constant(c)));
             }
         }
 
+        #[cfg(anything_verif)]
+        crate::verif::record(crate::verif::Event::Lookup {
+            phrase: query_text.to_owned(),
+            hit: None,
+        });
+
         Ok(None)
+    }
+
+    /// Verification hook: the segments of the index as currently seen by the
+    /// reader as `(segment id, max doc, deleted docs)`.
+    #[cfg(anything_verif)]
+    pub fn verif_segments(&self) -> Vec<(String, u32, u32)> {
+        let searcher = self.reader.searcher();
+
+        searcher
+            .segment_readers()
+            .iter()
+            .map(|s| {
+                (
+                    s.segment_id().uuid_string(),
+                    s.max_doc(),
+                    s.num_deleted_docs(),
+                )
+            })
+            .collect()
+    }
+
+    /// Verification hook: the `k` best matches for a phrase as
+    /// `(score bits, segment ordinal, doc id, description)`.
+    #[cfg(anything_verif)]
+    pub fn verif_topk(
+        &self,
+        phrase: &str,
+        k: usize,
+    ) -> Result<Vec<(u32, u32, u32, String)>, LookupError> {
+        let searcher = self.reader.searcher();
+        let query_parser = QueryParser::for_index(&self.index, vec![self.field_name]);
+        let query = query_parser.parse_query(phrase)?;
+        let top_docs = searcher.search(&query, &TopDocs::with_limit(k))?;
+        let mut out = Vec::new();
+
+        for (score, id) in top_docs {
+            let doc = searcher.doc(id)?;
+
+            let description = match doc.get_first(self.field_data) {
+                Some(Value::Bytes(data)) => match serde_cbor::from_slice::<Constant>(data) {
+                    Ok(c) => c.description.to_string(),
+                    Err(e) => format!("<undecodable: {}>", e),
+                },
+                _ => String::from("<no data>"),
+            };
+
+            out.push((score.to_bits(), id.segment_ord, id.doc_id, description));
+        }
+
+        Ok(out)
     }
 
     /// Load a document from the given bytes.
@@ -261,7 +340,11 @@ impl Db {
                 doc.add_text(self.field_name, token.as_ref());
             }
 
+            #[cfg(anything_verif)]
+            crate::verif::delay("add_document");
             writer.add_document(doc)?;
+            #[cfg(anything_verif)]
+            crate::verif::crashpoint("doc_added");
         }
 
         Ok(())
@@ -284,10 +367,22 @@ fn open_index(config: &crate::config::Config) -> Result<(bool, Index)> {
     if config.index_path.is_dir() {
         log::info!("removing index: {}", config.index_path.display());
         fs::remove_dir_all(&config.index_path)?;
+        #[cfg(anything_verif)]
+        crate::verif::crashpoint("dir_removed");
     }
 
     fs::create_dir_all(&config.index_path)?;
+    #[cfg(anything_verif)]
+    crate::verif::crashpoint("dir_created");
     let schema = build_schema();
+    #[cfg(anything_verif)]
+    #[allow(unreachable_code)]
+    {
+        let index = Index::create_in_dir(&config.index_path, schema.clone())?;
+        crate::verif::crashpoint("index_created");
+        return Ok((true, index));
+    }
+    #[allow(unreachable_code)]
     Ok((true, Index::create_in_dir(&config.index_path, schema)?))
 }
 
